@@ -71,6 +71,15 @@ EvLifeRet ==
        ELSE closed' = closed                      \* drain, or a stop that reports failure: no demand
     /\ UNCHANGED <<maxT, cap, sub, run, fin, lifeCalled, mp>>
 
+\* stop -> reset -> start: the pool accepts work again; submissions from here on are judged like any other
+\* (between the announcement and the return of the restart a submission may be accepted - the pool is open as soon as start()
+\* has opened it - or still refused - it is not open before)
+EvRestart == /\ IsEv("Restart") /\ closed /\ closed' = FALSE
+             /\ UNCHANGED <<maxT, cap, sub, run, fin, lifeCalled, mp>>
+
+EvRestartRet == /\ IsEv("RestartRet") /\ Ev.ok /\ lifeCalled' = FALSE
+                /\ UNCHANGED <<maxT, cap, sub, run, fin, closed, mp>>
+
 EvCount == /\ IsEv("Count")
            /\ (~lifeCalled) => Ev.n <= maxT       \* while it accepts work: never more workers than the maximum
            /\ UNCHANGED <<maxT, cap, sub, run, fin, lifeCalled, closed, mp>>
@@ -84,7 +93,7 @@ EvEnd == /\ IsEv("End")
          /\ (Ev.outcome = "done") => (AllAcceptedFinished /\ \A i \in AllIds : sub[i] # "called")
          /\ UNCHANGED <<maxT, cap, sub, run, fin, lifeCalled, closed, mp>>
 
-Next == EvReset \/ EvBegin \/ EvSubmitCall \/ EvSubmitRet \/ EvTaskRun \/ EvTaskEnd \/ EvLifeCall \/ EvLifeRet
+Next == EvRestart \/ EvRestartRet \/ EvReset \/ EvBegin \/ EvSubmitCall \/ EvSubmitRet \/ EvTaskRun \/ EvTaskEnd \/ EvLifeCall \/ EvLifeRet
         \/ EvCount \/ EvFuture \/ EvEnd
 Spec == Init /\ [][Next]_vars
 ExactlyOnce == \A i \in AllIds : run[i] <= 1
